@@ -1,6 +1,7 @@
 import EaselModel.Dist.MixGen
 import EaselModel.Dist.MixLogGen
 import EaselModel.Dist.MixgevLog
+import EaselModel.Dist.MixLogClose
 /-! Round 6: `esl_vec_DLogSum` for EVERY vector (no window hypothesis).  The code adds `exp (v_i − max)` only for the
     entries inside the 500-window below the maximum; the dropped terms are each at most `e^{-500}` (relative to the largest
     term, which is always inside), so the result is below `log Σ exp v_i` by at most `n · e^{-500}`. -/
@@ -184,5 +185,35 @@ theorem mixgev_log_all {g : ESL_MIXGEV ℝ} {x : ℝ} (hi : Inside g x) :
     have hK0 : (0 : ℝ) ≤ g.K * exp (-500) := by positivity
     rw [abs_le] at hc ⊢
     constructor <;> linarith [hb.1, hb.2, hc.1, hc.2]
+
+end EaselModel.Dist.DLogSumAll
+
+namespace EaselModel.Dist.DLogSumAll
+open Real Finset EaselModel.Dist EaselModel.Dist.Gen EaselModel.Dist.Spec EaselModel.Dist.MixGen EaselModel.Dist.MixLogGen
+
+/-- `esl_hxp_logcdf` against the logarithm of the TEXTBOOK mixture cdf on `x > μ`, every spread of the rates: the components'
+    `1e-8` (their `eslSMALLX1` switches) plus what the window drops -/
+theorem hxp_logcdf_all {h : ESL_HYPEREXP ℝ} {x : ℝ} (hx : h.mu < x) (hK : 1 ≤ h.K) (hw : h.K ≤ h.wrk.length)
+    (hpos : ∀ k < h.K, 0 < hq h k ∧ 0 < hl h k)
+    (hfin : ∀ k < h.K, entry h (fun l => esl_exp_logcdf x h.mu l) k ≠ (Num.inf : ℝ)) :
+    |esl_hxp_logcdf x h - log (hxpCdf h x)| ≤ 1e-8 + h.K * exp (-500) := by
+  have hb : esl_hxp_logcdf x h ≤ log (∑ k ∈ range h.K, hq h k * exp (esl_exp_logcdf x h.mu (hl h k))) ∧
+      log (∑ k ∈ range h.K, hq h k * exp (esl_exp_logcdf x h.mu (hl h k))) ≤ esl_hxp_logcdf x h + h.K * exp (-500) := by
+    simp only [esl_hxp_logcdf]
+    rw [if_neg (not_lt.mpr hx.le), fold_struct h (fun m l => esl_exp_logcdf x m l) h.K]
+    exact hxp_lsum_all h _ (fun l => exp (esl_exp_logcdf x h.mu l)) hK hw
+      (fun k hk => ⟨(hpos k hk).1, exp_pos _, (log_exp _).symm⟩) hfin
+  have hc : |log (∑ k ∈ range h.K, hq h k * exp (esl_exp_logcdf x h.mu (hl h k))) - log (hxpCdf h x)| ≤ 1e-8 := by
+    unfold hxpCdf
+    refine MixLogClose.log_wsum_close h.K hK (hq h) (fun k => esl_exp_logcdf x h.mu (hl h k)) (fun k => expCdf h.mu (hl h k) x) 1e-8
+      (fun k hk => (hpos k hk).1) (fun k hk => ?_) (fun k hk => ExpThm.code_logcdf (hpos k hk).2 hx)
+    unfold expCdf
+    rw [if_neg (not_lt.mpr hx.le)]
+    have : exp (-(hl h k * (x - h.mu))) < 1 := by
+      rw [exp_lt_one_iff]; have := mul_pos (hpos k hk).2 (sub_pos.mpr hx); linarith
+    linarith
+  have hK0 : (0 : ℝ) ≤ h.K * exp (-500) := by positivity
+  rw [abs_le] at hc ⊢
+  constructor <;> linarith [hb.1, hb.2, hc.1, hc.2]
 
 end EaselModel.Dist.DLogSumAll
